@@ -2,6 +2,7 @@ import AiutiVerif.Buffer.InvStep
 import AiutiVerif.Buffer.Quiet
 import AiutiVerif.Buffer.Once
 import AiutiVerif.Buffer.Props
+import AiutiVerif.Buffer.Waits
 /-!
 # Buffer property theorems at run level (C03 conservation, C07 barrier)
 
@@ -206,6 +207,87 @@ example : (runProgram { T := 1024, outcomes := [] }
 example : serial [.start 0 [1], .start 1 [2]] = none := by decide
 example : serial [.start 0 [1], .fin 3 true, .waitRet 7 3, .start 9 [2]] = some true := by decide
 
+/-! ## C07 / C03 — the machine never stops short (deadlock freedom)
+
+`AtRest s`: no zero-time step of the background task is enabled and no timed event is pending: the
+buffer will not move again until a new input arrives.  `openClear ins = false`: no foreign thread's
+`event.clear()` is still waiting for its `put` (in the code the put is scheduled by the same
+`_put` call, so it always follows; any submission after the clear counts). -/
+
+/-- **`wait()` always returns.**  For every program without a shutdown: if the buffer has come to
+rest after it, then every `wait()` the program issued **has returned** (its `waitRet` record is in
+the output stream), nobody is blocked in `q.join()` or on the flag, the flag is set, the
+background task is back at `await q.get()` with nothing queued and the unfinished count is zero.
+So the only way a `wait()` does not return is that the machine keeps moving for ever — the wrapped
+function never succeeds, a producer never ends — never that it stops with a waiter left behind. -/
+theorem C07_wait_always_returns (s0 : St) (hf : Fresh s0) (ins : List In) (hn : noShutdown ins)
+    (hc : openClear ins = false) :
+    let s := runProgram s0 ins
+    AtRest s →
+      (∀ id ∈ waitsOf ins, id ∈ waitIds s.outs) ∧ s.joiners = [] ∧ s.flaggers = [] ∧ s.event = true ∧
+      s.pc = Pc.idle ∧ s.queue = [] ∧ s.unfinished = 0 := by
+  intro s hr
+  obtain ⟨hk, hl⟩ := KL_runProgram s0 ins (K_fresh s0 hf) (L_fresh s0 hf) hn
+  rw [hc] at hl
+  obtain ⟨hpc, hq, hu, hev, hj, hfl⟩ := rest_shape s hk hl hr
+  refine ⟨?_, hj, hfl, hev, hpc, hq, hu⟩
+  intro id hid
+  have := waits_accounted s0 ins hn id hid
+  rw [mem_wids] at this
+  rcases this with ⟨w, hw, _⟩ | ⟨w, hw, _⟩ | ⟨r, hr', e⟩
+  · have hw' : w ∈ s.joiners := hw
+    rw [hj] at hw'; cases hw'
+  · have hw' : w ∈ s.flaggers := hw
+    rw [hfl] at hw'; cases hw'
+  · rw [hk.outsWaits]
+    exact List.mem_map.mpr ⟨r, hr', e⟩
+
+/-- The same at every instant of a program (after any prefix of its inputs) at which the buffer is
+at rest. -/
+theorem C07_wait_always_returns_prefix (s0 : St) (hf : Fresh s0) (ins : List In) (hn : noShutdown ins)
+    (hc : openClear ins = false) :
+    let s := ins.foldl applyIn s0
+    AtRest s →
+      (∀ id ∈ waitsOf ins, id ∈ waitIds s.outs) ∧ s.joiners = [] ∧ s.flaggers = [] ∧ s.event = true := by
+  intro s hr
+  obtain ⟨hk, hl⟩ := KL_foldl ins false s0 (K_fresh s0 hf) (L_fresh s0 hf) hn
+  have hc' : ins.foldl stepFc false = false := hc
+  rw [hc'] at hl
+  obtain ⟨_, _, _, hev, hj, hfl⟩ := rest_shape s hk hl hr
+  refine ⟨?_, hj, hfl, hev⟩
+  intro id hid
+  have := (Sub_foldl ins s0 hn).2 id hid
+  rw [mem_wids] at this
+  rcases this with ⟨w, hw, _⟩ | ⟨w, hw, _⟩ | ⟨r, hr', e⟩
+  · have hw' : w ∈ s.joiners := hw
+    rw [hj] at hw'; cases hw'
+  · have hw' : w ∈ s.flaggers := hw
+    rw [hfl] at hw'; cases hw'
+  · rw [hk.outsWaits]
+    exact List.mem_map.mpr ⟨r, hr', e⟩
+
+/-- **Every argument is eventually delivered, unless the buffer runs for ever**: at rest, every
+element any producer of the program yielded has been an argument of a call of the wrapped function
+that returned successfully.  (No hypothesis on foreign clears: delivery does not depend on the flag.) -/
+theorem C03_all_delivered_when_nothing_can_move (s0 : St) (hf : Fresh s0) (ins : List In) (hn : noShutdown ins) :
+    let s := runProgram s0 ins
+    AtRest s → ∀ x ∈ s.submitted, x ∈ (deliveredOf s.outs).1 := by
+  intro s hr
+  obtain ⟨hk, hl⟩ := KL_runProgram s0 ins (K_fresh s0 hf) (L_fresh s0 hf) hn
+  obtain ⟨hpc, hq⟩ := rest_idle s hk hl hr
+  exact C03_all_delivered_at_rest s0 hf ins hn hpc hq
+
+/-- Why the hypothesis on foreign clears: a thread that has cleared the flag and not yet put its
+producer leaves a `wait()` blocked (until the put arrives) although the buffer is at rest. -/
+theorem C07_open_foreign_clear_blocks :
+    let s := runProgram { T := 8, outcomes := [] } [.fclear 1, .wait 2 7 false]
+    AtRest s ∧ s.flaggers.map (·.id) = [7] ∧ openClear [.fclear 1, .wait 2 7 false] = true := by
+  refine ⟨⟨?_, ?_⟩, ?_, ?_⟩
+  · exact Option.isNone_iff_eq_none.mp (by decide +kernel)
+  · exact Option.isNone_iff_eq_none.mp (by decide +kernel)
+  · decide +kernel
+  · decide +kernel
+
 /-! ## Non-vacuity -/
 
 /-- a foreign thread clears the flag at the very instant the first call ends (tick 1024), its
@@ -226,5 +308,12 @@ example : noShutdown demoIns := by intro i hi; simp [demoIns] at hi; rcases hi w
 example : (runProgram demoSt demoIns).retLog = [(7, 2), (8, 3)] ∧
     (runProgram demoSt demoIns).submitted = [0, 1, 2] ∧ (runProgram demoSt demoIns).pc = Pc.idle ∧
     (deliveredOf (runProgram demoSt demoIns).outs).1 = [0, 1, 2] := by decide +kernel
+
+/-- the demo programs do come to rest, with their foreign clears closed -/
+example : AtRest (runProgram demoSt demoIns) ∧ openClear demoIns = false ∧ waitsOf demoIns = [7, 8] :=
+  ⟨⟨Option.isNone_iff_eq_none.mp (by decide +kernel), Option.isNone_iff_eq_none.mp (by decide +kernel)⟩,
+   by decide +kernel, by decide +kernel⟩
+example : AtRest (runProgram { T := 1024, outcomes := [] } demoForeign) ∧ openClear demoForeign = false :=
+  ⟨⟨Option.isNone_iff_eq_none.mp (by decide +kernel), Option.isNone_iff_eq_none.mp (by decide +kernel)⟩, by decide +kernel⟩
 
 end AiutiVerif.Buffer
